@@ -234,21 +234,28 @@ def num(prog, env, exact=False):
     raise ValueError(k)
 
 
-def agrees(got, prog, env, want):
+def agrees(got, prog, env, want, tree=None):
     """The tree's outcome is the plain computation's value, or -- when a float by-product sits
-    below a discontinuous operator -- the value of the same computation on exact rationals."""
+    below a discontinuous operator on either side -- the two agree as the same computation on
+    exact rationals (a dropped 0.0 makes the tree exact where the plain computation rounds;
+    a folded x**0 -> 1 makes int/int round in the tree where the plain Fraction is exact)."""
     if got[0] != "v":
         return False
     if refsem.values_equal(got[1], want):
         return True
-    if "float" in _types_below(prog, env):
+    if "float" in _types_below(prog, env) or isinstance(got[1], float):
         try:
             wx = num(prog, env, exact=True)
         except RecursionError:
             raise
         except Exception:  # noqa: BLE001
             return False
-        return refsem.values_equal(got[1], wx)
+        if refsem.values_equal(got[1], wx):
+            return True
+        if tree is not None:
+            with refsem.exact():
+                gx = refsem.outcome(lambda: refsem.ev(tree, env))
+            return gx[0] == "v" and refsem.values_equal(gx[1], wx)
     return False
 
 
@@ -355,7 +362,7 @@ def c_program(ctx, case):
         ctx.case(None)
         ctx.count("compared")
         got = refsem.outcome(lambda: refsem.ev(tree, env))
-        if agrees(got, prog, env, want):
+        if agrees(got, prog, env, want, tree):
             if not (got[0] == "v" and refsem.values_equal(got[1], want)):
                 ctx.count("agreed_only_with_exact_rational_computation")
             continue
@@ -368,7 +375,7 @@ def c_program(ctx, case):
             try:
                 tree2 = sym(prog, raw)
                 got2 = refsem.outcome(lambda: refsem.ev(tree2, env))
-                if agrees(got2, prog, env, want):
+                if agrees(got2, prog, env, want, tree2):
                     finding = _which_site(prog, st, env, want)
             except Exception:
                 finding = None
@@ -401,7 +408,7 @@ def _refusal_finding(ctx, prog):
             except Exception:  # noqa: BLE001
                 continue
             g = refsem.outcome(lambda: refsem.ev(t, env))
-            ok = ok and agrees(g, prog, env, want)
+            ok = ok and agrees(g, prog, env, want, t)
             cond = cond or _site_condition(prog, raw, opname, env)
         if ok and cond:
             return fid
@@ -419,7 +426,7 @@ def _which_site(prog, st, env, want):
             g = refsem.outcome(lambda: refsem.ev(t, env))
         except Exception:
             continue
-        if agrees(g, prog, env, want) and _site_condition(prog, raw, opname, env):
+        if agrees(g, prog, env, want, t) and _site_condition(prog, raw, opname, env):
             return fid
     return None
 
